@@ -228,6 +228,8 @@ def run(tier):
                      (20000, 5, 2, "mixed", 2, False),
                      (20000, 4, 2, "dirlike", 4, False),    # directories named like samples (batch1.bin/, empty.dat/)
                      (20000, 7, 3, "odd", 4, "stale"),      # awkward file names; a longer report already exists at the -o path
+                     (20000, 40, 2, "flat+fd32", 4, False),  # more samples than the process may hold open files (descriptor limit 32)
+                     (20000, 5, 2, "nested+linkslash", 4, False),   # -i names a symbolic link to the directory, with a trailing slash
                      (1000000, 1, 2, "flat", 16, False)]
     # an ordinary (unprivileged) user writing the report into a directory that does not exist yet (when the check itself does
     # not run as root, the "report in new dir" scenarios above already are of this kind)
@@ -249,23 +251,29 @@ def run(tier):
     for si, (scale, cnt, n, layout, gmp, newdir) in enumerate(scenarios):
         user = "nobody" if si in unpriv else None
         root = os.path.join(work, "in%d" % si)
+        layout, _, opt = layout.partition("+")
         files = make_files(rng, root, cnt, scale // 8, layout)
+        nofile = 32 if opt == "fd32" else None
+        iarg = root
+        if opt == "linkslash":
+            os.symlink(root, os.path.join(work, "link%d" % si))
+            iarg = os.path.join(work, "link%d" % si) + "/"
         rep = os.path.join(work, "out%d" % si, "nested", "report.csv") if newdir is True else os.path.join(work, "report%d.csv" % si)
         if newdir == "stale":
             with open(rep, "w") as fh:
                 fh.write("stale header\n" + "".join("old_sample_%d.bin, 0.111111, 0.222222\n" % k for k in range(3000)))
-        p = vlib.run_bin(pubtool if user else tool, ["-i", root, "-o", rep, "-n", str(n)], timeout=900 if scale > 20000 else 120, env={"GOMAXPROCS": str(gmp)}, cwd=work, user=user)
+        p = vlib.run_bin(pubtool if user else tool, ["-i", iarg, "-o", rep, "-n", str(n)], timeout=900 if scale > 20000 else 120, env={"GOMAXPROCS": str(gmp)}, cwd=work, user=user, nofile=nofile)
         hang = bool(getattr(p, "timed_out", False))
         if hang:
             # reproduce once before believing a hang
-            p2 = vlib.run_bin(pubtool if user else tool, ["-i", root, "-o", rep, "-n", str(n)], timeout=900 if scale > 20000 else 120, env={"GOMAXPROCS": str(gmp)}, cwd=work, user=user)
+            p2 = vlib.run_bin(pubtool if user else tool, ["-i", iarg, "-o", rep, "-n", str(n)], timeout=900 if scale > 20000 else 120, env={"GOMAXPROCS": str(gmp)}, cwd=work, user=user, nofile=nofile)
             if not getattr(p2, "timed_out", False):
                 p, hang = p2, False
         header, rows = parse_report(rep) if os.path.exists(rep) else ([], [])
         opt = optional_files(root)
         tables = tables_for(hz, files + opt)
         groups.append(events_for(scale, files, header, rows, tables, p.returncode if not hang else -9, hang, optional=opt))
-        metas.append({"scenario": {"scale": scale, "files": cnt, "workers": n, "layout": layout, "gomaxprocs": gmp, "report_in_new_dir": newdir, "user": user or "(the check's own)"},
+        metas.append({"scenario": {"scale": scale, "files": cnt, "workers": n, "layout": layout, "gomaxprocs": gmp, "report_in_new_dir": newdir, "user": user or "(the check's own)", "option": opt},
                       "stderr_tail": (p.stderr or "")[-600:], "rows": len(rows)})
         run.nontriv(json.dumps(metas[-1]["scenario"], sort_keys=True))
     # ---- the report goes to a slow sink (a named pipe with a one-page buffer, drained a few hundred bytes at a time, as when
